@@ -392,7 +392,7 @@ Qed.
 
 (* the last view after the final pruning, default requirer: exactly the whiteout values are gone *)
 Lemma last_view_pruned cfg im st0 :
-  Dp cfg im = true -> prune_safe_p cfg im = true -> cfg_req cfg = None ->
+  Dp cfg im = true -> no_links_p im = true -> prune_safe_p cfg im = true -> cfg_req cfg = None ->
   load_unpruned cfg im = Some st0 -> (0 < length (init_slots im))%nat ->
   let i := (length (init_slots im) - 1)%nat in
   wf (nth i (st_chains (prune cfg st0)) empty_trie) /\
@@ -402,7 +402,7 @@ Lemma last_view_pruned cfg im st0 :
             | None => None
             end.
 Proof.
-  intros DP PS REQ LU Hn.
+  intros DP NOL PS REQ LU Hn.
   set (n := length (init_slots im)) in *.
   set (i := (n - 1)%nat). cbv zeta. fold n. fold i.
   assert (Hi : (i < n)%nat) by (unfold i; lia).
@@ -432,8 +432,12 @@ Proof.
   assert (NOLINK : forall q nq, get_segs q fin = Some nq -> fn_target nq = []).
   { intros q nq Gq. destruct q as [|x q'].
     - rewrite ROOTV in Gq. inversion Gq. reflexivity.
-    - destruct (FOUND (x :: q') nq ltac:(intro X0; discriminate X0) Gq) as (A & s & B & d & _ & _ & _ & E & _). subst nq.
-      unfold e_node. destruct (e_kind d); reflexivity. }
+    - destruct (FOUND (x :: q') nq ltac:(intro X0; discriminate X0) Gq) as (A & s & B & d & EDL & _ & _ & E & Hd & _). subst nq.
+      assert (NL : is_link d = false).
+      { unfold no_links_p in NOL. rewrite forallb_forall in NOL.
+        assert (INS : In s (all_slots im)) by (apply in_rev; apply INDL; rewrite EDL; apply in_or_app; right; left; reflexivity).
+        specialize (NOL s INS). rewrite forallb_forall in NOL. specialize (NOL d Hd). apply negb_true_iff in NOL. exact NOL. }
+      unfold e_node, is_link in *. destruct (e_kind d); try reflexivity. discriminate. }
   assert (WHH : forall q nq, get_segs q fin = Some nq -> fn_wh nq = true ->
       q <> [] /\ fn_is_dir nq = false /\ path_segs (walk_path_string q) = Some q /\
       (forall q2, PathTreeProofs.prefix q q2 = true -> q2 <> q -> get_segs q2 fin = None) /\
@@ -510,14 +514,14 @@ Proof.
 Qed.
 
 Theorem final_prune_only_whiteouts_on_Dp_lemma cfg im st :
-  Dp cfg im = true -> prune_safe_p cfg im = true -> cfg_req cfg = None ->
+  Dp cfg im = true -> no_links_p im = true -> prune_safe_p cfg im = true -> cfg_req cfg = None ->
   load cfg im = Some st ->
   forall p, p <> [] -> (0 < length (init_slots im))%nat ->
     impl_lookup st (length (init_slots im) - 1) p = spec_lookup cfg im (length (init_slots im) - 1) p.
 Proof.
-  intros DP PS REQ LD p Np Hn.
+  intros DP NOL PS REQ LD p Np Hn.
   unfold load in LD. destruct (load_unpruned cfg im) as [st0|] eqn:LU; [|discriminate]. inversion LD; subst st; clear LD.
-  destruct (last_view_pruned cfg im st0 DP PS REQ LU Hn) as [_ PT]. cbv zeta in PT.
+  destruct (last_view_pruned cfg im st0 DP NOL PS REQ LU Hn) as [_ PT]. cbv zeta in PT.
   unfold impl_lookup. rewrite PT.
   assert (Hi : (length (init_slots im) - 1 < length (init_slots im))%nat) by lia.
   rewrite <- (view_eq_overlay_on_Dp_unpruned_lemma cfg im st0 DP LU _ p Hi Np).
@@ -528,12 +532,12 @@ Qed.
 
 (* every view, default requirer *)
 Theorem view_eq_overlay_on_Dp_all_views_lemma cfg im st :
-  Dp cfg im = true -> prune_safe_p cfg im = true -> cfg_req cfg = None ->
+  Dp cfg im = true -> no_links_p im = true -> prune_safe_p cfg im = true -> cfg_req cfg = None ->
   load cfg im = Some st ->
   forall i p, (i < length (init_slots im))%nat -> p <> [] ->
     impl_lookup st i p = spec_lookup cfg im i p.
 Proof.
-  intros DP PS REQ LD i p Hi Np.
+  intros DP NOL PS REQ LD i p Hi Np.
   destruct (Nat.eq_dec (S i) (length (init_slots im))) as [E|NE].
   - replace i with (length (init_slots im) - 1)%nat by lia.
     apply final_prune_only_whiteouts_on_Dp_lemma; auto. lia.
